@@ -18,7 +18,6 @@ From CanTranslated Require Import ParserTypes ParserGlue ParserTranslated.
 Import ListNotations.
 Open Scope Z_scope.
 
-Definition run_as {T} (to_def : T -> def) (m : M T) : M def := bind m (fun d => ret (to_def d)).
 
 (** hand-model loops and translated loops are never destructed by [step]: they are rewritten with
     their loop lemma first *)
@@ -373,6 +372,128 @@ Section Equiv.
   Proof.
     intros. unfold AttributeValueForObjectDef_parseFrom, parse_attribute_value, object_ref. norm. pt_records. steps.
     all: rewrite AttributeValueForObjectDef_range_eq by reflexivity; norm; pt_records; fsteps.
+  Qed.
+
+  (** ================================================================ Parser helper methods (parser.go)
+      Each translated helper calls the MODEL's operations (table prims of the translator); the lemma says it IS the
+      model's operation of the same name. Together with the parseFrom lemmas above (which also go through the
+      model's operations) the trusted hand-modelled operations shrink to the ones listed in DESIGN 9.6. *)
+  Ltac units := repeat match goal with u : unit |- _ => destruct u end.
+  Ltac hsteps := norm; pt_records; repeat (first [reflexivity | progress units | fstep]).
+
+  (** peekToken is idempotent (Parser.peekKeyword and Parser.token peek again for the error position) *)
+  Lemma peek_peek : forall st t st', peek_token ilh idh F st = POk t st' -> peek_token ilh idh F st' = POk t st'.
+  Proof.
+    intros st t st'. unfold peek_token. destruct (p_look st) eqn:E.
+    - intros H; inversion H; subst. rewrite E. reflexivity.
+    - destruct (scan ilh idh F (p_sc st)) as [[t0 s0]| |]; intros H; inversion H; subst. reflexivity.
+  Qed.
+
+  Lemma TP_Parser_keyword_eq : forall kw st, Parser_keyword ilh idh F kw st = p_keyword ilh idh F kw st.
+  Proof. intros. unfold Parser_keyword, p_keyword. hsteps. Qed.
+
+  Lemma TP_Parser_peekKeyword_eq : forall st, Parser_peekKeyword ilh idh F st = peek_keyword ilh idh F st.
+  Proof.
+    intros. unfold Parser_peekKeyword, peek_keyword. norm.
+    destruct (peek_token ilh idh F st) eqn:E; try reflexivity. cbv beta iota.
+    destruct (t_typ a =? -2); cbv beta iota; try reflexivity. rewrite (peek_peek _ _ _ E). reflexivity.
+  Qed.
+
+  Lemma TP_Parser_token_eq : forall typ st, Parser_token ilh idh F typ st = p_token ilh idh F typ st.
+  Proof. intros. unfold Parser_token, p_token. hsteps. Qed.
+
+  Lemma TP_Parser_optionalToken_eq : forall typ st, Parser_optionalToken ilh idh F typ st = optional_token ilh idh F typ st.
+  Proof. intros. unfold Parser_optionalToken, optional_token. hsteps. Qed.
+
+  Lemma TP_Parser_identifier_eq : forall st, Parser_identifier ilh idh F st = p_identifier ilh idh F st.
+  Proof. intros. unfold Parser_identifier, p_identifier. hsteps. Qed.
+
+  Lemma TP_Parser_stringIdentifier_eq : forall st, Parser_stringIdentifier ilh idh F st = p_string_identifier ilh idh F st.
+  Proof. intros. unfold Parser_stringIdentifier, p_string_identifier. hsteps. Qed.
+
+  Lemma TP_Parser_uint_eq : forall st, Parser_uint ilh idh F st = p_uint ilh idh F st.
+  Proof. intros. unfold Parser_uint, p_uint. hsteps. Qed.
+
+  Lemma TP_Parser_optionalUint_eq : forall st, Parser_optionalUint ilh idh F st = optional_uint ilh idh F st.
+  Proof. intros. unfold Parser_optionalUint, optional_uint. hsteps. Qed.
+
+  Lemma TP_Parser_float_eq : forall st, Parser_float ilh idh F st = p_float ilh idh F st.
+  Proof. intros. unfold Parser_float, p_float, optional_minus. hsteps. Qed.
+
+  Lemma TP_Parser_intInRange_eq : forall lo hi st, Parser_intInRange ilh idh F lo hi st = int_in_range ilh idh F lo hi st.
+  Proof. intros. unfold Parser_intInRange, int_in_range, optional_minus. hsteps. Qed.
+
+  Lemma TP_Parser_enumValue_eq : forall values st, Parser_enumValue ilh idh F values st = enum_value ilh idh F values st.
+  Proof. intros. unfold Parser_enumValue, enum_value. hsteps. Qed.
+
+  Lemma TP_Parser_optionalObjectType_eq : forall st,
+    Parser_optionalObjectType ilh idh F st = optional_object_type ilh idh F st.
+  Proof. intros. unfold Parser_optionalObjectType, optional_object_type. hsteps. Qed.
+
+  Lemma TP_Parser_messageID_eq : forall st, Parser_messageID ilh idh F st = p_message_id ilh idh F st.
+  Proof. intros. unfold Parser_messageID, p_message_id. hsteps. Qed.
+
+  Lemma TP_Parser_signalValueType_eq : forall st, Parser_signalValueType ilh idh F st = p_small_enum ilh idh F 2 st.
+  Proof. intros. unfold Parser_signalValueType, p_small_enum. hsteps. Qed.
+
+  Lemma TP_Parser_environmentVariableType_eq : forall st,
+    Parser_environmentVariableType ilh idh F st = p_small_enum ilh idh F 2 st.
+  Proof. intros. unfold Parser_environmentVariableType, p_small_enum. hsteps. Qed.
+
+  Lemma TP_Parser_attributeValueType_eq : forall st,
+    Parser_attributeValueType ilh idh F st = p_attribute_value_type ilh idh F st.
+  Proof. intros. unfold Parser_attributeValueType, p_attribute_value_type. hsteps. Qed.
+
+  Lemma TP_Parser_accessType_eq : forall st, Parser_accessType ilh idh F st = p_access_type ilh idh F st.
+  Proof. intros. unfold Parser_accessType, p_access_type. hsteps. Qed.
+
+  Lemma Parser_discardLine_loop_eq : forall f st, Parser_discardLine_loop1 ilh idh F f st = discard_loop ilh idh F f st.
+  Proof.
+    induction f; intros; [reflexivity|]. cbn [Parser_discardLine_loop1 discard_loop]. norm.
+    destruct (next_token ilh idh F st); try reflexivity.
+    all: cbv beta iota; destruct (t_typ a =? 10); cbv beta iota; try reflexivity;
+         destruct (t_typ a =? -1); cbv beta iota; [reflexivity|apply IHf].
+  Qed.
+
+  Lemma TP_Parser_discardLine_eq : forall st, Parser_discardLine ilh idh F st = discard_line ilh idh F st.
+  Proof.
+    intros. unfold Parser_discardLine, discard_line. norm. unfold use_whitespace. cbv beta iota.
+    rewrite Parser_discardLine_loop_eq. destruct (discard_loop ilh idh F F _); reflexivity.
+  Qed.
+
+  (** ================================================================ Parse(): keyword switch and loop *)
+  Ltac disp :=
+    first [ apply TP_VersionDef_parseFrom_eq | apply TP_BitTimingDef_parseFrom_eq | apply TP_NewSymbolsDef_parseFrom_eq
+          | apply TP_NodesDef_parseFrom_eq | apply TP_MessageDef_parseFrom_eq | apply TP_SignalDef_parseFrom_eq
+          | apply TP_EnvironmentVariableDef_parseFrom_eq | apply TP_CommentDef_parseFrom_eq
+          | apply TP_AttributeDef_parseFrom_eq | apply TP_AttributeDefaultValueDef_parseFrom_eq
+          | apply TP_AttributeValueForObjectDef_parseFrom_eq | apply TP_ValueDescriptionsDef_parseFrom_eq
+          | apply TP_ValueTableDef_parseFrom_eq | apply TP_SignalValueTypeDef_parseFrom_eq
+          | apply TP_MessageTransmittersDef_parseFrom_eq | apply TP_EnvironmentVariableDataDef_parseFrom_eq
+          | apply TP_UnknownDef_parseFrom_eq ].
+
+  Lemma Parser_Parse_dispatch_eq : forall defs kw st,
+    Parser_Parse_dispatch ilh idh F defs kw st
+    = parse_def_with ilh idh F (parse_bit_timing ilh idh F) (parse_unknown ilh idh F) (parse_message ilh idh F) defs kw st.
+  Proof.
+    intros. unfold Parser_Parse_dispatch, parse_def_with.
+    cbv delta [kw_version kw_bit_timing kw_new_symbols kw_nodes kw_message kw_signal kw_envvar kw_comment kw_attribute
+               kw_attribute_default kw_attribute_value kw_value_descriptions kw_value_table kw_signal_value_type
+               kw_message_transmitters kw_envvar_data].
+    repeat (match goal with |- (if bytes_eqb ?a ?k then _ else _) _ = _ => destruct (bytes_eqb a k); cbv beta iota; [disp|] end).
+    disp.
+  Qed.
+
+  (** NewParser(data).Parse() with Defs() = Parser.parse: [TP_Parser_Parse_eq] with f = F, defs = [], st = p_init src *)
+  Lemma TP_Parser_Parse_eq : forall f defs st,
+    Parser_Parse_loop ilh idh F f defs st
+    = parse_loop_with ilh idh F (parse_bit_timing ilh idh F) (parse_unknown ilh idh F) (parse_message ilh idh F) f defs st.
+  Proof.
+    induction f; intros; [reflexivity|]. cbn [Parser_Parse_loop parse_loop_with]. norm.
+    destruct (peek_token ilh idh F st); try reflexivity. cbv beta iota.
+    destruct (t_typ a =? -1); cbv beta iota; [reflexivity|].
+    destruct (peek_keyword ilh idh F st0); try reflexivity. cbv beta iota. rewrite Parser_Parse_dispatch_eq.
+    destruct (parse_def_with _ _ _ _ _ _ _ _ _); try reflexivity. apply IHf.
   Qed.
 
 End Equiv.
